@@ -360,12 +360,25 @@ class BlockEval:
                     idx |= 1 << k
                     acc ^= tbl[base | (1 << k)] ^ sub0
             if tbl[idx] != acc:
-                raise AnalysisBroken('lookup table %s is not GF(2)-affine in its index at %s (entry %d)'
-                                     % (g.ops[0].name, i.where(), idx))
+                raise TableNotAffine(g.ops[0].name, idx, i)
         r = BV.const(w, sub0)
         for k, b in symbits:
             r = r.xor(BV.const(w, tbl[base | (1 << k)] ^ sub0).scale(b))
         return r
+
+
+class TableNotAffine(Exception):
+    """a constant lookup table indexed by register/data bits is not GF(2)-affine in its index.  Every table of a CRC
+    step is (T[i ^ j] == T[i] ^ T[j] ^ T[0], the step being linear), so this is a violation of the CRC rules, reported by
+    the rule that met it, not an analysis limit"""
+    def __init__(self, table, entry, inst):
+        Exception.__init__(self, 'lookup table %s is not GF(2)-affine in its index at %s (entry %d)' % (table, inst.where(), entry))
+        self.table, self.entry, self.inst = table, entry, inst
+
+    def detail(self):
+        return ('entry %d of the lookup table %s (read at %s) breaks T[i^j] == T[i]^T[j]^T[0]: the table of a CRC step is '
+                'linear in its index, so this entry cannot be right whatever the polynomial'
+                % (self.entry, self.table, self.inst.where()))
 
 
 class DataDependentBranch(Exception):
